@@ -219,6 +219,9 @@ func nsInit() int {
 		}
 	}
 	cmd.Env = append(env, "VERIF_ROLE="+os.Getenv("VERIF_NSROLE"))
+	if h := os.Getenv("VERIF_NSHELPER"); h != "" {
+		cmd.Env = append(cmd.Env, "VERIF_HELPER="+h) // the second process of the namespace runs a helper role
+	}
 	cmd.Stdout, cmd.Stderr, cmd.Stdin = os.Stdout, os.Stderr, nil
 	if err := cmd.Start(); err != nil {
 		fmt.Fprintln(os.Stderr, "nsinit:", err)
